@@ -6,7 +6,7 @@ package predict
 // harness, no behaviour of its own.
 
 
-func VerifParams(colors, bpc, columns, predictor int) (bitsPerPixel, bitsPerRow, bytesPerRow, bytesPerPixel int, err error) {
+func VerifTrParams(colors, bpc, columns, predictor int) (bitsPerPixel, bitsPerRow, bytesPerRow, bytesPerPixel int, err error) {
 	p := &Params{Colors: colors, BitsPerComponent: bpc, Columns: columns, Predictor: predictor}
 	return p.bitsPerPixel(), p.bitsPerRow(), p.bytesPerRow(), p.bytesPerPixel(), p.Validate()
 }
